@@ -28,7 +28,7 @@ def readers(ctx):
     return out
 
 
-def classify_reader(ctx, path):
+def classify_reader(ctx, path, _seen=()):
     parsers = {f: fam for fam, f in model.regex_parsers(ctx)}
     if path in parsers:
         return 'literal reader (%s)' % parsers[path]
@@ -36,12 +36,29 @@ def classify_reader(ctx, path):
         return 'printer'
     if path.startswith('formatter::'):
         return 'printer'
+    # a helper is as good as its callers: every caller must itself be a literal reader / printer (or such a helper)
+    b = ctx.facts.bodies.get(path)
+    if b is not None and b.kind == 'closure':
+        return classify_reader(ctx, b.rec.get('parent'), _seen)
+    callers = [c for c in ctx.cg.callers_of(path) if c != path]
+    if callers and path not in _seen:
+        kinds = [classify_reader(ctx, c, _seen + (path,)) for c in callers]
+        if all(kinds):
+            return 'helper of ' + ', '.join(sorted(set(k.split(' (')[0] for k in kinds)))
     return None
+
+
+def reads_separators(ctx, path, rd, depth=2):
+    if path in rd:
+        return True
+    if depth == 0:
+        return False
+    return any(reads_separators(ctx, y, rd, depth - 1) for (y, k) in ctx.cg.edges.get(path, ()) if k in ('direct', 'closure'))
 
 
 def r1_readers(ctx):
     """R1 who reads decimal_seperator / thousand_separator"""
-    ctx.rule('R1', 'readers of the separator configuration', floor=7)
+    ctx.rule('R1', 'readers of the separator configuration', floor=8)
     rd = readers(ctx)
     for p, sites in sorted(rd.items()):
         cls = classify_reader(ctx, p)
@@ -54,8 +71,18 @@ def r1_readers(ctx):
     want = ['number', 'money', 'percent']
     parsers = {fam: f for fam, f in model.regex_parsers(ctx)}
     for fam in want:
-        if parsers.get(fam) not in rd:
+        if not reads_separators(ctx, parsers.get(fam), rd):
             ctx.finding('R1', 'literal-reader-ignores-separators/%s' % fam, 'the %s literal reader does not read the separator configuration' % fam)
+        else:
+            ctx.ok('R1', 'the %s literal reader honours the separators' % fam, 'coverage', sample=False)
+    for item in ('number::NumberItem', 'percent::PercentItem', 'money::MoneyItem', 'dynamic_type::DynamicTypeItem'):
+        pth = '<compiler::%s as compiler::DataItem>::print' % item
+        if pth not in ctx.facts.bodies:
+            raise AnchorLost('printer %s not found' % pth)
+        if not reads_separators(ctx, pth, rd):
+            ctx.finding('R1', 'printer-ignores-separators/%s' % item.split('::')[1], '%s::print does not use the configured separators' % item.split('::')[1], site=ctx.facts.bodies[pth].loc)
+        else:
+            ctx.ok('R1', '%s::print honours the separators' % item.split('::')[1], 'coverage', sample=False)
 
 
 def compute_layer(ctx):
